@@ -39,7 +39,7 @@ func c09FreeRunning(root, tier string, jobs []c09Job, addV func(kind, name, msg,
 		cmd := exec.Command("go", args...)
 		cmd.Dir = engine.VerifDir
 		cmd.Env = append(engine.GoEnv(), "CGO_ENABLED=1")
-		if o, err := cmd.CombinedOutput(); err != nil {
+		if o, err := engine.RunLocked(cmd); err != nil {
 			return fmt.Errorf("%s", clipS(string(o), 1500))
 		}
 		return nil
